@@ -8,6 +8,7 @@ import (
 	"strings"
 	"time"
 	_ "time/tzdata"
+	"unsafe"
 
 	"github.com/elastic/go-libaudit/v2/auparse"
 
@@ -29,6 +30,8 @@ func init() {
 	gens["c04-collisions"] = c04Collisions
 	gens["c04-now"] = c04Now
 	gens["c04-selfsimilar"] = c04SelfSimilar
+	gens["c04-related"] = c04Related
+	gens["c04-samebuffer"] = c04SameBuffer
 }
 
 // c04Collisions: pairs of DIFFERENT well-formed headers of equal length that collide under the hash
@@ -499,6 +502,89 @@ func c04SelfSimilar(c *enumx.Ctx) {
 		}
 	}
 	c.Sample("type=SYSCALL msg=audit(1700000000.123:42): audit(1700000000.123:42): a=b => RawData holds both copies")
+}
+
+// c04Related: headers parsed (and rendered) BACK TO BACK whose numbers are arithmetically related - seconds that differ
+// by 2^k (k = 8 .. 33) or by a multiple of 2^32, sequence numbers that differ by 2^k, everything else equal - in both
+// orders: whatever is remembered of the previous record under a narrowed or hashed key answers for the next one.
+func c04Related(c *enumx.Ctx) {
+	for _, base := range []uint64{5, 1490137971, 1<<31 - 1} {
+		var others []uint64
+		for k := uint(8); k <= 33; k++ {
+			others = append(others, base+1<<k, base^(1<<k))
+		}
+		for m := uint64(1); m <= 3; m++ {
+			others = append(others, base+m<<32)
+		}
+		for _, o := range others {
+			if o > 17179869183 || !c.Mine() {
+				continue
+			}
+			for _, ms := range []string{"000", "123"} {
+				for _, pair := range [][2]uint64{{base, o}, {o, base}} {
+					for _, sec := range pair {
+						checkSuccess(c, header{"SYSCALL", 1300, fmt.Sprint(sec), ms, "77", " a=b"})
+					}
+				}
+			}
+		}
+	}
+	for _, base := range []uint64{0, 77, 1<<31 - 1} {
+		for k := uint(8); k <= 31; k++ {
+			if !c.Mine() {
+				continue
+			}
+			o := base ^ (1 << k)
+			for _, pair := range [][2]uint64{{base, o}, {o, base}} {
+				for _, seq := range pair {
+					checkSuccess(c, header{"SYSCALL", 1300, "1700000000", "123", fmt.Sprint(seq), " a=b"})
+				}
+			}
+		}
+	}
+	c.Sample("audit(1490137971.123:77) then audit(5785105267.123:77) (2^32 s later): each ToMapStr()[@timestamp] is its own")
+}
+
+// c04SameBuffer: a reader that keeps ONE line buffer and hands the parser a string view of it (unsafe.String, no copy):
+// the next line sits at the same address with the same length.  For every ordered pair of record type names of equal
+// length: line A is parsed, the buffer is overwritten with line B (other type, time, sequence, body) and parsed again -
+// the answer is that of a fresh copy of line B.  (What was remembered by address or length of the previous input shows.)
+func c04SameBuffer(c *enumx.Ctx) {
+	byLen := map[int][]string{}
+	for t := 1000; t < 3000; t++ {
+		n := auparse.AuditMessageType(t).String()
+		if !strings.HasPrefix(n, "UNKNOWN") {
+			byLen[len(n)] = append(byLen[len(n)], n)
+		}
+	}
+	buf := make([]byte, 0, 512)
+	pairs := 0
+	for _, names := range byLen {
+		for _, a := range names {
+			for _, b := range names {
+				if a == b || !c.Mine() {
+					continue
+				}
+				la := "type=" + a + " msg=audit(1700000000.123:42): a=b"
+				lb := "type=" + b + " msg=audit(1700000001.124:43): c=d"
+				c.Begin(func() string { return la + "  then, in the same buffer,  " + lb })
+				c.Try("C04", func() {
+					buf = append(buf[:0], la...)
+					_, _ = auparse.ParseLogLine(unsafe.String(&buf[0], len(buf)))
+					copy(buf, lb)
+					got, gerr := auparse.ParseLogLine(unsafe.String(&buf[0], len(buf)))
+					want, werr := auparse.ParseLogLine(strings.Clone(lb))
+					if (gerr == nil) != (werr == nil) || (gerr == nil && (got.RecordType != want.RecordType || got.Sequence != want.Sequence || !got.Timestamp.Equal(want.Timestamp) || got.RawData != want.RawData)) {
+						c.Report("C04 parse-depends-on-previous-buffer-content", fmt.Sprintf("line %q parsed from a buffer that held %q before: got (%+v, %v), a fresh copy gives (%+v, %v)", lb, la, got, gerr, want, werr), nil)
+						return
+					}
+					c.Nontrivial()
+				})
+				pairs++
+			}
+		}
+	}
+	c.Sample("type=SYSCALL ... then type=SECCOMP ... at the same address and length => SECCOMP (1326)")
 }
 
 func c04Ms(c *enumx.Ctx) {
